@@ -30,6 +30,11 @@ def harness():
     return common.build("subject_h", ["observer/subject_harness.cpp"], FLAGS, [])
 
 
+def throws(c):
+    """The history contains an observer whose callback throws."""
+    return any(any(o["k"] == "throw" for o in st[4]) for st in c["steps"] if st[0] in ("Subscribe", "SubscribeMuted"))
+
+
 def plain_harness():
     return common.build("subject_plain", ["observer/subject_harness.cpp"], ["-O1", "-g", "-UNDEBUG"], [])
 
@@ -277,7 +282,9 @@ def check(pid, tier, seed):
                 prob = "sanitizer / signal during a valid history: " + " ".join(crash.get("stderr", "").split())[:300]
             elif fin is not None and sorted(fin["destroyed"]) != list(range(1, fin["subscribed"] + 1)):
                 prob = "after destroying the Subject: observers destroyed %s of %d subscribed" % (sorted(fin["destroyed"]), fin["subscribed"])
-            if prob:
+            if prob and throws(c):
+                verdict.note("subject[random,%s, a callback throws] %s" % (c["sig"], " ".join(prob.split()[:6])), prob)
+            elif prob:
                 nobs = sum(1 for r in recs if r.get("e") in ("Obs", "Skip"))
                 verdict.violation("subject[random,%s] %s" % (c["sig"], " ".join(prob.split()[:6])), prob,
                                   {"component": "subject", "xid": x, "sig": c["sig"], "history": [list(s[:4]) + [sc_str(s[4])] for s in c["steps"][:nobs + 1]]})
@@ -288,6 +295,11 @@ def check(pid, tier, seed):
         nrej += len(rej)
         for x, info in rej.items():
             nx = info["next"] or {}
+            if throws(ycfg[x]):
+                # callbacks that throw are outside the quantifier of C05 / C10 (the statement itself cannot hold in the round that is
+                # aborted): the model says how the pinned code behaves there, a deviation is reported and not judged
+                verdict.note("subject[random,%s, a callback throws] history rejected at %s" % (ycfg[x]["sig"], nx.get("op")), {"matched": info["matched"]})
+                continue
             verdict.violation("subject[random,%s] history rejected at %s" % (ycfg[x]["sig"], nx.get("op")), {"matched": info["matched"], "next": nx},
                               {"component": "subject", "xid": x, "sig": ycfg[x]["sig"], "events": info["events"][:info["matched"] + 1]})
         nexec += len(ycfg)
